@@ -64,3 +64,16 @@ static parsec_key_t ref_make_key(const REF_TP_T *tp, int c, const parsec_assignm
     if (c == 0) return __jdf2c_make_key_T((const parsec_taskpool_t *)tp, l);
     (void)c; return __jdf2c_make_key_S((const parsec_taskpool_t *)tp, l);
 }
+
+/* IN side, data flows only */
+static int ref_pred(const int *g, int c, const int *p, int f, int *pc, int *pp, int *pf)
+{ (void)g; if (c == REF_CLS_T && f == T_A && p[0] > 0) { *pc = REF_CLS_T; pp[0] = p[0] - 1; pp[1] = p[1] / 2; *pf = T_A; return 1; } return 0; }
+static int ref_is_ctl(int c, int f) { return (c == REF_CLS_T && f == T_X) || (c == REF_CLS_S); }
+
+/* key of instance (c, p) through the real generated make_key */
+static parsec_key_t ref_key_of(const REF_TP_T *tp, const int *g, int c, const int *p)
+{
+    if (c == 0) { __parsec_tree_T_parsec_assignment_t a = { 0 }; ref_T_fill(&a, g, p); return __jdf2c_make_key_T((const parsec_taskpool_t *)tp, (const parsec_assignment_t *)&a); }
+    if (c == 1) { __parsec_tree_S_parsec_assignment_t a = { 0 }; ref_S_fill(&a, g, p); return __jdf2c_make_key_S((const parsec_taskpool_t *)tp, (const parsec_assignment_t *)&a); }
+    return 0;
+}
